@@ -289,7 +289,9 @@ def gen_soup(rnd, size):
         elif k < 0.8:
             # a valid simple line
             ln = rnd.choice(['xx = 1', "systemLog('a')", 'if xx:', 'endif', 'while xx:', 'endwhile', 'for a in b:', 'endfor', 'function ff():', 'endfunction',
-                             'else:', 'elif yy:', 'break', 'continue', 'return', 'return 1', 'lbl:', 'jump lbl'])
+                             'else:', 'elif yy:', 'break', 'continue', 'return', 'return 1', 'lbl:', 'jump lbl',
+                             # a jump directly in front of its own label, a label in front of a jump to it, the same jump twice
+                             'jump lbl\nlbl:', 'jump lbl\n# note\n\nlbl:', 'jumpif (xx) lbl\nlbl:', 'lbl:\njump lbl', 'jump lbl\njump lbl\nlbl:', 'jump nxt\nnxt:\njump nxt'])
         else:
             ln = ' '.join(rnd.choice(SOUP_TOKENS) for _ in range(rnd.randint(0, 10)))
         if rnd.random() < 0.08:
